@@ -57,6 +57,8 @@ def norm_ids(text: str) -> str:
 
 
 def kv_dump(kv: Keyvalues):
+    if not isinstance(kv, Keyvalues):
+        return ['?', repr(kv)]      # a marker appended by mutate() to a child list
     if isinstance(kv._value, list):
         return ['B', kv._real_name, [kv_dump(c) for c in kv._value]]
     return ['L', kv._real_name, kv._value]
